@@ -100,3 +100,105 @@ theorem Sieve.exact_trace {s : Sieve} {m : Ideal} (U : List Nat) (hi : s.Inv)
       rw [this]; rfl
 
 end Dawgs.C16
+
+namespace Dawgs.C16
+
+theorem NeMap.step_cap (s : NeMap) (o : Op) : (s.step o).1.cap = s.cap := by
+  cases o with
+  | put k v =>
+    show (s.put k v).cap = s.cap
+    unfold NeMap.put; split
+    · rfl
+    · split <;> rfl
+  | get k => show (s.get k).1.cap = s.cap; unfold NeMap.get; split <;> rfl
+  | del k => show (s.delete k).cap = s.cap; unfold NeMap.delete; split <;> rfl
+
+theorem NeMap.lookup_put_self_present {s : NeMap} {k : Nat} {w : Nat} (h : s.lookup k = some w) (v : Nat) :
+    (s.put k v).lookup k = some v := by
+  unfold NeMap.put; rw [h]; simp only
+  show Ideal.get _ k = some v
+  have hm : k ∈ skeys s.store := by
+    apply Classical.byContradiction; intro hn
+    have := (lookup_none_iff s.store k).2 hn
+    rw [← NeMap.lookup_eq_get, h] at this; cases this
+  rw [get_update]; simp [hm]
+
+theorem NeMap.exact_trace {s : NeMap} {m : Ideal} (U : List Nat) (hi : s.Inv)
+    (hex : ∀ x, s.lookup x = m.get x) (hsub : skeys s.store ⊆ U)
+    (hU : ∀ l : List Nat, l.Nodup → l ⊆ U → (l.length : Int) ≤ s.cap) (ops : List Op) (hops : putKeys ops ⊆ U) :
+    s.trace ops = idealTrace m ops := by
+  induction ops generalizing s m with
+  | nil => rfl
+  | cons o ops ih =>
+    have hi' := NeMap.step_inv hi o
+    have hcap := NeMap.step_cap s o
+    cases o with
+    | get k =>
+      have hf := NeMap.get_frame s k
+      have hops' : putKeys ops ⊆ U := hops
+      have := ih (s := (s.step (.get k)).1) (m := m) hi'
+        (fun x => by show NeMap.lookup (s.get k).1 x = _; unfold NeMap.lookup; rw [hf]; exact hex x)
+        (by show skeys (s.get k).1.store ⊆ U; rw [hf]; exact hsub)
+        (by rw [hcap]; exact hU) hops'
+      simp only [NeMap.trace, idealTrace, Ideal.step]
+      rw [this]
+      congr 2
+      show outOf (s.get k).2 = outOf (m.get k)
+      have : (s.get k).2 = s.lookup k := by unfold NeMap.get; cases s.lookup k <;> rfl
+      rw [this, hex k]
+    | del k =>
+      have hf := NeMap.delete_frame s k
+      have hops' : putKeys ops ⊆ U := hops
+      have hknot : k ∉ skeys (s.delete k).store := by rw [hf.1]; simp
+      have := ih (s := (s.step (.del k)).1) (m := m.del k) hi'
+        (fun x => by
+          show (s.delete k).lookup x = _
+          rw [Ideal.get_del]
+          by_cases hx : x = k
+          · subst hx; simp only [if_true]; exact (lookup_none_iff _ _).2 hknot
+          · simp only [hx, if_false]; rw [hf.2 x hx]; exact hex x)
+        (by show skeys (s.delete k).store ⊆ U; rw [hf.1]; exact fun a ha => hsub (List.mem_filter.1 ha).1)
+        (by rw [hcap]; exact hU) hops'
+      simp only [NeMap.trace, idealTrace, Ideal.step]
+      rw [this]; rfl
+    | put k v =>
+      have hkU : k ∈ U := hops (by simp [putKeys])
+      have hops' : putKeys ops ⊆ U := fun a ha => hops (by simp [putKeys, ha])
+      have hpf := NeMap.put_frame s k v
+      have hself : (s.put k v).lookup k = some v ∧ skeys (s.put k v).store ⊆ U := by
+        cases hl : s.lookup k with
+        | some w =>
+          refine ⟨NeMap.lookup_put_self_present hl v, ?_⟩
+          unfold NeMap.put; rw [hl]; simp only; rw [skeys_update]; exact hsub
+        | none =>
+          have hk : k ∉ skeys s.store := (lookup_none_iff _ _).1 hl
+          have hroom : s.size < s.cap := by
+            have hnd : (k :: skeys s.store).Nodup := List.nodup_cons.2 ⟨hk, hi.nodup⟩
+            have := hU (k :: skeys s.store) hnd (by
+              intro a ha
+              rcases List.mem_cons.1 ha with rfl | h
+              · exact hkU
+              · exact hsub h)
+            have hlen : (skeys s.store).length = s.store.length := by simp [skeys]
+            simp only [List.length_cons, hlen] at this
+            rw [hi.size]; omega
+          unfold NeMap.put; rw [hl]; simp only [hroom, if_true]
+          refine ⟨?_, ?_⟩
+          · show Ideal.get ((k, v) :: s.store) k = some v
+            rw [Ideal.get_cons]; simp
+          · rw [skeys_cons]; intro a ha
+            rcases List.mem_cons.1 ha with rfl | h
+            · exact hkU
+            · exact hsub h
+      have := ih (s := (s.step (.put k v)).1) (m := m.put k v) hi'
+        (fun x => by
+          show (s.put k v).lookup x = _
+          rw [Ideal.get_put]
+          by_cases hx : x = k
+          · subst hx; simp only [if_true]; exact hself.1
+          · simp only [hx, if_false]; rw [hpf.2 x hx]; exact hex x)
+        hself.2 (by rw [hcap]; exact hU) hops'
+      simp only [NeMap.trace, idealTrace, Ideal.step]
+      rw [this]; rfl
+
+end Dawgs.C16
